@@ -149,6 +149,19 @@ pub fn gen_case(seed: u64, idx: u64, corpus: &Corpus) -> Case {
         4 | 5 | 6 if !corpus.rules.is_empty() => { let k = r.below(4); let base = r.pick(&corpus.rules).clone(); (vec![vec![mutate(&mut r, corpus, &base, k)]], "token-mutant") }
         7 => { let base = plain(&rand_rule(&mut r, &RuleCfg::default())); let k = r.range(1, 3); (vec![vec![mutate(&mut r, corpus, &base, k)]], "grammar-mutant") }
         8 => (vec![vec![noise(&mut r, 24)]], "noise"),
+        9 if idx % 2 == 0 => {
+            // what the other properties' monitors generate (their templates, identity rules, shorthands, tier rules, rule lists,
+            // planted rules with words instantiated from them): C02's workload is meant to be the union of theirs
+            match r.below(7) {
+                0 => { let c = crate::c08::gen(&mut r, &corpus.rules); words = vec![c.word]; (c.rules.into_iter().map(|x| vec![x]).collect(), "monitor-templates") }
+                1 => { let c = crate::c07::gen(&mut r); words = vec![c.word]; (vec![vec![c.rule]], "monitor-templates") }
+                2 => { let c = crate::c12::gen(&mut r); words = c.words; (vec![if r.chance(1, 2) { c.short } else { c.long }], "monitor-templates") }
+                3 => { let c = crate::c14::gen(&mut r); words = vec![c.word]; (vec![vec![c.rule]], "monitor-templates") }
+                4 => { let c = crate::c16::gen(&mut r); words = vec![c.phrase]; (c.groups, "monitor-templates") }
+                5 => { let c = crate::c11::gen(&mut r); words = c.lines; (vec![c.rules], "monitor-templates") }
+                _ => { let c = crate::c06::gen(&mut r); words = vec![c.word]; (vec![vec![if r.chance(1, 2) { c.rule } else { c.unplanted }]], "monitor-templates") }
+            }
+        }
         _ => { let base = if corpus.rules.is_empty() { "a > e".to_string() } else { r.pick(&corpus.rules).clone() }; (vec![vec![base], vec![], vec![";; comment".into(), "".into()]], "corpus") }
     };
     let mut into = Vec::new(); let mut from = Vec::new();
@@ -271,7 +284,7 @@ pub fn explore(ctx: &Ctx, shard: usize, n: usize) -> Report {
         return rep;
     }
     // parent: each of the n threads supervises one child process over its slice of the index space
-    let total = ctx.pick(400_000, 12_000_000);
+    let total = ctx.pick(400_000, 30_000_000);
     let per = total / n as u64;
     let (mut start, end) = (shard as u64 * per, (shard as u64 + 1) * per);
     let exe = std::env::current_exe().expect("current exe");
